@@ -99,20 +99,21 @@ inductive Step : Sys → Sys → Prop where
   /-- AddVersion accepted: the batch is a non-empty prefix of the pending list; a snapshot may
       become due only when nothing is left to send -/
   | pushOk (S : Sys) (r : Nat) (f : Flight) (n : Nat) (sd : Bool) (h : (S.reps r).fl = some f)
-      (hp : f.pulled = true) (hn : 0 < n) (hn' : n ≤ f.L.length) (hk : f.k = S.chain.length)
-      (hsd : sd = true → f.L.drop n = []) :
+      (hp : f.pulled = true) (ha : f.askSnap = false) (hn : 0 < n) (hn' : n ≤ f.L.length)
+      (hk : f.k = S.chain.length) (hsd : sd = true → f.L.drop n = []) :
       Step S (setRep { S with chain := S.chain ++ [f.L.take n] } r ((S.reps r).withFl (some (f.pushed n sd))))
   /-- AddVersion rejected with ExpectedParentVersion(latest) -/
   | pushReject (S : Sys) (r : Nat) (f : Flight) (h : (S.reps r).fl = some f) (hp : f.pulled = true)
-      (hne : f.L ≠ []) (hk : f.k ≠ S.chain.length) :
+      (ha : f.askSnap = false) (hne : f.L ≠ []) (hk : f.k ≠ S.chain.length) :
       Step S (if f.requested = some S.chain.length then { S with err := true }
               else setRep S r ((S.reps r).withFl (some (f.rejected S.chain.length))))
   /-- AddSnapshot -/
-  | addSnap (S : Sys) (r : Nat) (f : Flight) (h : (S.reps r).fl = some f) (hs : f.snapDue = true) :
+  | addSnap (S : Sys) (r : Nat) (f : Flight) (h : (S.reps r).fl = some f) (hs : f.snapDue = true)
+      (ha : f.askSnap = false) :
       Step S (setRep { S with snap := some (f.k, f.T) } r ((S.reps r).withFl (some f.snapDone)))
   /-- nothing left to send: the transaction commits -/
   | finish (S : Sys) (r : Nat) (f : Flight) (h : (S.reps r).fl = some f) (hp : f.pulled = true)
-      (he : f.L = []) :
+      (ha : f.askSnap = false) (he : f.L = []) :
       Step S (setRep S r (Rep.synced f))
   /-- any fault: the transaction is dropped -/
   | abort (S : Sys) (r : Nat) (f : Flight) (h : (S.reps r).fl = some f) :
